@@ -187,19 +187,19 @@ Print Assumptions C07_old_refuted_netconf_close_blocks.
 
 (* reachable states per scenario; columns = idle, blocked, eof, ioerr, data-arriving,
    error-arriving, eof-arriving, any; 0 = out of scope *)
-Definition count_row (k : kind) (b2 u : bool) (tc : tcb) : list nat :=
+Definition count_row (k : kind) (b2 u : bool) (tc : tcb) : list N :=
   map (fun st => let sc := mkSc k st tc b2 u in
-                 if in_scope sc then fst (state_count sc) else 0) all_states.
-Definition count_table : list (list (list nat)) :=
+                 if in_scope sc then N.of_nat (fst (state_count sc)) else 0%N) all_states.
+Definition count_table : list (list (list N)) :=
   map (fun k => flat_map (fun b2 => flat_map (fun u => map (count_row k b2 u) all_tcs) all_bools)
                          all_bools) all_kinds.
 Eval vm_compute in count_table.
 Eval vm_compute in
   (length scenarios,
-   fold_left (fun a x => N.add a (N.of_nat x)) (concat (concat count_table)) 0%N).
+   fold_left N.add (concat (concat count_table)) 0%N).
 
 Eval vm_compute in
-  map (fun b2 => map (fun tc => length (system_reach b2 tc)) all_tcs) all_bools.
+  map (fun b2 => map (fun tc => N.of_nat (length (system_reach b2 tc))) all_tcs) all_bools.
 
 (* the original code: (states, panic states, racy states, quiescent states with a thread left) *)
 Eval vm_compute in
